@@ -201,8 +201,8 @@ def lake_build(targets=None, timeout=3000):
     return r.returncode == 0, (r.stdout + r.stderr), time.time() - t0
 
 
-_AX_RE = re.compile(r"'([^']+)' depends on axioms: \[([^\]]*)\]")
-_NOAX_RE = re.compile(r"'([^']+)' does not depend on any axioms")
+_AX_RE = re.compile(r"'(\S+?)' depends on axioms: \[([^\]]*)\]")       # names may end in primes
+_NOAX_RE = re.compile(r"'(\S+?)' does not depend on any axioms")
 
 
 def write_audit_file():
